@@ -149,9 +149,48 @@ fn main() {
                     fails.push(format!("{{\"kind\":\"{}\",\"detail\":\"{}\",\"ops\":[\"{}\",\"{}\"]}}", kind, detail, x.line(&d, "", false), y.line(&d, "", false)));
                 }
             }
+            // ---- populations: many variants of ONE component of one base request; distinct variants must get pairwise distinct keys
+            //      (finds aliasing that needs a particular *pattern* of changes, which a random pair hardly ever hits)
+            let mut pops: Vec<(&'static str, Vec<Req>)> = vec![];
+            {
+                // every placement of 1..3 directory separators in one 14-byte name: same bytes, different paths
+                let base = { let mut b = gen_req(&mut rng, true); b.pp = b"int x;\n".to_vec(); b };
+                let name = b"abcdefghijklmn"; let mut v = vec![];
+                let pos: Vec<usize> = (1..name.len()).collect();
+                let mut sets: Vec<Vec<usize>> = vec![];
+                for &i in &pos { sets.push(vec![i]); for &j in pos.iter().filter(|j| **j > i) { sets.push(vec![i, j]); for &k in pos.iter().filter(|k| **k > j) { sets.push(vec![i, j, k]); } } }
+                for set in sets { let mut p = b"pop/".to_vec(); for (i, c) in name.iter().enumerate() { if set.contains(&i) { p.push(b'/'); } p.push(*c); }
+                    let mut full = d.as_bytes().to_vec(); full.push(b'/'); full.extend(&p); let full = std::path::PathBuf::from(OsString::from_vec(full));
+                    std::fs::create_dir_all(full.parent().unwrap()).unwrap();
+                    let mut r = base.clone(); r.path = p; v.push(r); }
+                pops.push(("input_path_separators", v));
+                // every split of one 10-byte string into 1..3 arguments, for both keys
+                for pre in [false, true] {
+                    let base = gen_req(&mut rng, pre); let s = b"-DAB=xy-Iz"; let mut v = vec![];
+                    for i in 0..=s.len() { for j in i..=s.len() {
+                        let parts: Vec<Vec<u8>> = if i == 0 && j == 0 { vec![s.to_vec()] } else if i == 0 || i == j { continue } else if j == s.len() { vec![s[..i].to_vec(), s[i..].to_vec()] } else { vec![s[..i].to_vec(), s[i..j].to_vec(), s[j..].to_vec()] };
+                        let mut r = base.clone(); r.args = parts; v.push(r); } }
+                    pops.push((if pre { "argument_splits_pre" } else { "argument_splits" }, v));
+                    // every split of one string into (name, value) of an allow-listed variable plus the bare prefix
+                    let allow: &[&str] = if pre { &P_ENV } else { &C_ENV }; let mut v = vec![];
+                    for a in allow { for val in [&b""[..], b"1", b"=1", b"1=", b"a=b"] { let mut r = base.clone(); r.env = vec![(a.as_bytes().to_vec(), val.to_vec())]; v.push(r); } }
+                    pops.push((if pre { "allowed_env_pre" } else { "allowed_env" }, v));
+                }
+            }
+            let mut pop_sizes: BTreeMap<String, u64> = BTreeMap::new();
+            for (f, v) in &pops {
+                let mut seen: BTreeMap<String, &Req> = BTreeMap::new(); pop_sizes.insert(f.to_string(), v.len() as u64);
+                for r in v {
+                    let k = match emit(r) { Some(k) => k, None => continue };
+                    if let Some(o) = seen.get(&k) { if o.components() != r.components() {
+                        if !fails.iter().any(|x| x.contains(&format!("population={}", f))) {
+                            fails.push(format!("{{\"kind\":\"alias\",\"detail\":\"population={}: two of {} variants of one component share a key\",\"ops\":[\"{}\",\"{}\"]}}", f, v.len(), o.line(&d, "", false), r.line(&d, "", false))); } } }
+                    else { seen.insert(k, r); }
+                }
+            }
             let famj = fam.iter().map(|(k, v)| format!("\"{}\":[{},{}]", k, v.0, v.1)).collect::<Vec<_>>().join(",");
-            std::fs::write(&a[6], format!("{{\"requests\":{},\"pairs\":{},\"none_keys\":{},\"families\":{{{}}},\"monitor_failures\":[{}],\"samples\":[{}]}}",
-                n, pairs.len(), none_keys, famj, fails.join(","), samples.iter().map(|s| format!("\"{}\"", s)).collect::<Vec<_>>().join(","))).unwrap();
+            std::fs::write(&a[6], format!("{{\"requests\":{},\"pairs\":{},\"none_keys\":{},\"populations\":{{{}}},\"families\":{{{}}},\"monitor_failures\":[{}],\"samples\":[{}]}}",
+                n, pairs.len(), none_keys, pop_sizes.iter().map(|(k, v)| format!("\"{}\":{}", k, v)).collect::<Vec<_>>().join(","), famj, fails.join(","), samples.iter().map(|s| format!("\"{}\"", s)).collect::<Vec<_>>().join(","))).unwrap();
         }
         Some("cmp") => {
             let rq = std::fs::read_to_string(&a[2]).unwrap(); let rk = std::fs::read_to_string(&a[3]).unwrap(); let mp = std::fs::read_to_string(&a[4]).unwrap();
